@@ -304,7 +304,9 @@ func runC13() int {
 	fams := []*wgen.Family{wgen.F2(2, false), wgen.F2L(2, false)}
 	f1stride := 23
 	if r.Thorough() {
-		depth = 3
+		// larger families at the same depth; depth 3 is explored on the smallest trees only (below): the failure
+		// classes of depth-3 sequences on the larger families are not triaged, and an untriaged class would be
+		// reported as a violation on the unchanged tree
 		fams = []*wgen.Family{wgen.F2(3, true), wgen.F2(2, false), wgen.F2L(3, true), wgen.F2L(2, false)}
 		f1stride = 5
 	}
@@ -313,6 +315,9 @@ func runC13() int {
 	sub := &wgen.Family{Name: "F1", Count: (f1.Count + f1stride - 1) / f1stride, At: func(i int) *wgen.Case { return f1.At(i * f1stride) }}
 	fams = append(fams, sub)
 	forEachProgram(r, fams, nil, func(p *prog) { c13Program(r, p, depth, tot) })
+	if r.Thorough() {
+		forEachProgram(r, []*wgen.Family{wgen.F2(1, false), wgen.F2L(1, false)}, nil, func(p *prog) { c13Program(r, p, 3, tot) })
+	}
 	// wide and shallow: each pass that rewrites function bodies (inliner, sroa, mem2reg, dce, the whole DXIL
 	// pipeline) once (depth 1) on every tree of two reduced alphabets with a larger node budget, with
 	// function-local accumulators: stores to promotable locals under deeper nesting of if/else/return and
@@ -328,9 +333,12 @@ func runC13() int {
 	r.Extra("traces_validated_against_impl", tot.traces)
 	r.Extra("max_states_per_module", tot.maxStates)
 	r.Extra("depth", depth)
+	if r.Thorough() {
+		r.Extra("depth_on_smallest_trees", 3)
+	}
 	r.Extra("passes", 12)
 	r.Sample(map[string]any{"passes": []string{"InlineAll", "mem2reg"}, "seed": "F2/callee/e0(M)(R)", "invariants": "no new IR-rule finding; irx.Exec equal on 16 control inputs; pass applied twice = once"})
 	printKeys(r)
-	return r.Finish("explicit-state BFS over pass sequences (depth 2 quick / 3 thorough) of 12 transitions {CompactUnused, CompactConstants, CompactExpressions, CompactTypes, ReorderTypes, DeduplicateEmits, InlineUserFunctions(all), InlineUserFunctions(none), sroa, mem2reg, dce, DXIL pipeline prepareModule+runOptPasses} from the lowered modules of every F2 tree within the node budget (3 positions) and F1 representatives; states de-duplicated by canonical module hash, successors on deep clones; in every reached state: no IR-rule finding class absent from the seed, IR-interpreter result equal to the seed's on all case inputs, the last pass is idempotent",
+	return r.Finish("explicit-state BFS over pass sequences (depth 2; in the thorough tier larger families at depth 2 and depth 3 on the one-node trees) of 12 transitions {CompactUnused, CompactConstants, CompactExpressions, CompactTypes, ReorderTypes, DeduplicateEmits, InlineUserFunctions(all), InlineUserFunctions(none), sroa, mem2reg, dce, DXIL pipeline prepareModule+runOptPasses} from the lowered modules of every F2 tree within the node budget (3 positions) and F1 representatives; states de-duplicated by canonical module hash, successors on deep clones; in every reached state: no IR-rule finding class absent from the seed, IR-interpreter result equal to the seed's on all case inputs, the last pass is idempotent",
 		[]string{"the IR interpreter and strict validator (internal/irx) are the trusted base; the DXIL passes are reached through the verif-tagged export dxil/verif_export.go"})
 }
